@@ -4,7 +4,7 @@ From RP2V Require Import Base.Prelude Base.Time Base.Dec Base.Sorting Model.Type
   Proofs.ParserLookup Proofs.ParserRows Proofs.ParserSheet Proofs.FaultsCtor Proofs.FaultsSheet.
 Open Scope Z_scope.
 
-Lemma init_is_st counter : init_state counter = st_of None 0 (acc0 counter).
+Lemma init_is_st counter : init_state counter = st_of None 0 [] (acc0 counter).
 Proof. reflexivity. Qed.
 
 (** the state after the valid tables [blocks] *)
@@ -12,12 +12,27 @@ Lemma blocks_parse_ok cfg asset ai counter blocks a :
   str_index asset (pc_assets cfg) 0 = Some ai -> wf_blocks cfg asset 1 blocks ->
   NoDup (map (fun b => tab_code (b_tab b)) blocks) ->
   expect_blocks cfg (acc0 counter) 1 blocks = Ok a ->
-  exists c, parse_rows cfg asset (init_state counter) 1 (flat_map (render_block cfg asset) blocks) = Ok (st_of None c a).
+  exists c, parse_rows cfg asset (init_state counter) 1 (flat_map (render_block cfg asset) blocks) = Ok (st_of None c (seen_after blocks []) a).
 Proof.
   intros A W ND E.
-  destruct (blocks_parse cfg asset ai blocks 0 (acc0 counter) a 1 [] W A ND) as [c P]; auto.
-  { intros b _. destruct (b_tab b); reflexivity. }
+  destruct (blocks_parse cfg asset ai blocks 0 [] (acc0 counter) a 1 [] W A ND) as [c P]; auto.
+  { intros b _. split; [destruct (b_tab b); reflexivity | reflexivity]. }
   exists c. rewrite app_nil_r in P. rewrite init_is_st, P. reflexivity.
+Qed.
+
+Lemma seen_has_after blocks seen b : In b blocks -> seen_has (b_tab b) (seen_after blocks seen) = true.
+Proof.
+  intro H. unfold seen_has, seen_after. apply existsb_exists. exists (b_tab b). split.
+  - apply in_or_app. left. apply -> in_rev. apply in_map. exact H.
+  - apply table_eqb_eq. reflexivity.
+Qed.
+
+Lemma seen_has_not_after blocks t : (forall b, In b blocks -> b_tab b <> t) -> seen_has t (seen_after blocks []) = false.
+Proof.
+  intro H. unfold seen_has, seen_after. rewrite app_nil_r.
+  destruct (existsb (table_eqb t) (rev (map b_tab blocks))) eqn:E; [|reflexivity].
+  apply existsb_exists in E. destruct E as [x [HI HE]]. apply table_eqb_eq in HE. subst x.
+  apply in_rev in HI. apply in_map_iff in HI. destruct HI as [b [HB HI]]. exfalso. apply (H b HI). exact HB.
 Qed.
 
 Lemma parse_rows_ok_app cfg asset l1 l2 s n s1 :
@@ -39,7 +54,7 @@ Theorem fault_in_rendered_sheet cfg asset ai counter blocks a t gap kw hdr w row
   wf_blocks cfg asset 1 blocks -> NoDup (map (fun b => tab_code (b_tab b)) blocks) ->
   expect_blocks cfg (acc0 counter) 1 blocks = Ok a ->
   (* the table with the fault: blank rows, keyword, header, any valid rows *)
-  tab_empty a t = true ->
+  tab_empty a t = true -> (forall b, In b blocks -> b_tab b <> t) ->
   (forall r, In r gap -> is_blank_row r = true) ->
   table_of_cell (nth 0 kw CEmpty) = Some t ->
   first_ok (nth 0 hdr CEmpty) = true ->
@@ -54,17 +69,17 @@ Theorem fault_in_rendered_sheet cfg asset ai counter blocks a t gap kw hdr w row
   is_err (parse_sheet cfg asset counter
             (flat_map (render_block cfg asset) blocks ++ gap ++ [kw; hdr] ++ render_data cfg asset t w rows1 ++ bad :: post)).
 Proof.
-  intros A W ND EB TE G K HF HC WF M TO FO ER BF BAD.
+  intros A W ND EB TE NT G K HF HC WF M TO FO ER BF BAD.
   apply parse_sheet_rows_err.
   destruct (blocks_parse_ok cfg asset ai counter blocks a A W ND EB) as [c P].
   rewrite (parse_rows_ok_app _ _ _ _ _ _ _ P), length_blocks.
   rewrite rows_blank by assumption.
-  simpl app. rewrite parse_rows_cons, (step_kw _ _ _ _ _ _ _ K TE).
-  rewrite parse_rows_cons, (step_hdr _ _ _ _ _ _ HF HC).
+  simpl app. rewrite parse_rows_cons, (step_kw _ _ _ _ _ _ _ _ K TE (seen_has_not_after blocks t NT)).
+  rewrite parse_rows_cons, (step_hdr _ _ _ _ _ _ _ HF HC).
   replace (1 + blocks_len blocks + Z.of_nat (length gap) + 1 + 1) with (1 + blocks_len blocks + Z.of_nat (length gap) + 2) by lia.
-  rewrite (rows_data cfg asset ai w t rows1 2 a a1 _ (bad :: post)); auto; try lia.
+  rewrite (rows_data cfg asset ai w t (t :: seen_after blocks []) rows1 2 a a1 _ (bad :: post)); auto; try lia.
   rewrite parse_rows_cons.
-  assert (R : is_err (row_step cfg asset (st_of (Some t) (2 + Z.of_nat (length rows1)) a1)
+  assert (R : is_err (row_step cfg asset (st_of (Some t) (2 + Z.of_nat (length rows1)) (t :: seen_after blocks []) a1)
                         (1 + blocks_len blocks + Z.of_nat (length gap) + 2 + Z.of_nat (length rows1)) bad)).
   { apply (step_data_fault _ _ _ t); [reflexivity | unfold st_of; cbn [ps_count]; lia | exact BF |].
     apply data_row_fault. destruct BAD as [B|B]; [left; apply B|right; exact B]. }
@@ -137,8 +152,9 @@ Proof.
   - apply (IH a1 a' _ W); auto. exists b0. auto.
 Qed.
 
-(** a second table of a type whose earlier table had data rows is rejected, wherever it comes *)
-Theorem repeated_table_rejected cfg asset ai counter blocks a t gap kw post :
+(** a second table of a type whose earlier table had data rows is rejected, wherever it comes -- whichever of the two
+    tests the code uses *)
+Theorem repeated_table_rejected_nonempty cfg asset ai counter blocks a t gap kw post :
   str_index asset (pc_assets cfg) 0 = Some ai ->
   wf_blocks cfg asset 1 blocks -> NoDup (map (fun b => tab_code (b_tab b)) blocks) ->
   expect_blocks cfg (acc0 counter) 1 blocks = Ok a ->
@@ -153,12 +169,51 @@ Proof.
   rewrite (parse_rows_ok_app _ _ _ _ _ _ _ P), length_blocks.
   rewrite rows_blank by assumption. rewrite parse_rows_cons.
   pose proof (expect_blocks_nonempty cfg asset t blocks _ _ 1 W EX EB) as NE.
-  assert (R : is_err (row_step cfg asset (st_of None (c + Z.of_nat (length gap)) a) (1 + blocks_len blocks + Z.of_nat (length gap)) kw)).
-  { apply (step_repeated _ _ _ t); [reflexivity | exact K | destruct t; exact NE]. }
+  assert (R : is_err (row_step cfg asset (st_of None (c + Z.of_nat (length gap)) (seen_after blocks []) a)
+                        (1 + blocks_len blocks + Z.of_nat (length gap)) kw)).
+  { apply (step_repeated _ _ _ t); [reflexivity | exact K |].
+    apply repeated_if_set_nonempty; [destruct t; exact NE|].
+    destruct EX as [b [HI [HT _]]]. subst t. apply seen_has_after. exact HI. }
   destruct (row_step cfg asset _ _ kw); [contradiction|exact I].
 Qed.
 
-(** ... but NOT when the earlier table of that type is empty (finding F11): OUT / header / TABLE END / OUT / header / row / TABLE END *)
+(** THE CODE REMEMBERS THE TABLE TYPES IT HAS BEGUN (read from parse_ods by the translator).  This lemma stops compiling
+    on a tree whose parse_ods still tests the transaction set for emptiness (finding F11). *)
+Lemma code_parser_remembers_tables : gen_parser_remembers_tables = true.
+Proof. reflexivity. Qed.
+
+(** hence a second table of ANY type already begun is rejected, wherever it comes, with or without data rows in the first *)
+Theorem repeated_table_rejected cfg asset ai counter blocks a t gap kw post :
+  str_index asset (pc_assets cfg) 0 = Some ai ->
+  wf_blocks cfg asset 1 blocks -> NoDup (map (fun b => tab_code (b_tab b)) blocks) ->
+  expect_blocks cfg (acc0 counter) 1 blocks = Ok a ->
+  (exists b, In b blocks /\ b_tab b = t) ->
+  (forall r, In r gap -> is_blank_row r = true) ->
+  table_of_cell (nth 0 kw CEmpty) = Some t ->
+  is_err (parse_sheet cfg asset counter (flat_map (render_block cfg asset) blocks ++ gap ++ kw :: post)).
+Proof.
+  intros A W ND EB EX G K.
+  apply parse_sheet_rows_err.
+  destruct (blocks_parse_ok cfg asset ai counter blocks a A W ND EB) as [c P].
+  rewrite (parse_rows_ok_app _ _ _ _ _ _ _ P), length_blocks.
+  rewrite rows_blank by assumption. rewrite parse_rows_cons.
+  assert (R : is_err (row_step cfg asset (st_of None (c + Z.of_nat (length gap)) (seen_after blocks []) a)
+                        (1 + blocks_len blocks + Z.of_nat (length gap)) kw)).
+  { apply (step_repeated _ _ _ t); [reflexivity | exact K |].
+    unfold repeated_table. rewrite code_parser_remembers_tables.
+    destruct EX as [b [HI HT]]. subst t. apply seen_has_after. exact HI. }
+  destruct (row_step cfg asset _ _ kw); [contradiction|exact I].
+Qed.
+
+(** the same at the level of one step: after ANY accepted prefix, a keyword of a type that prefix has begun *)
+Theorem repeated_table_step cfg asset s t rowno row :
+  ps_cur s = None -> table_of_cell (nth 0 row CEmpty) = Some t -> seen_has t (ps_seen s) = true -> is_err (row_step cfg asset s rowno row).
+Proof.
+  intros C K SH. apply (step_repeated cfg asset s t rowno row C K). unfold repeated_table. rewrite code_parser_remembers_tables. exact SH.
+Qed.
+
+(** ... which was NOT so for the code that tested the transaction set for emptiness (finding F11, kept as the witness for the
+    other value of the flag): OUT / header / TABLE END / OUT / header / row / TABLE END was accepted *)
 Definition f11_cfg : pcfg :=
   {| pc_in := [(0, 0); (1, 1); (2, 2); (3, 3); (4, 4); (5, 5); (6, 6)];
      pc_out := [(0, 0); (1, 1); (2, 2); (3, 3); (4, 4); (5, 5); (6, 6); (7, 7)];
@@ -179,10 +234,12 @@ Theorem repeated_table_refuted :
   exists cfg asset rows p,
     (* two OUT tables *)
     length (filter (fun r => match table_of_cell (nth 0 r CEmpty) with Some TabOut => true | _ => false end) rows) = 2%nat /\
-    parse_sheet cfg asset 0 rows = Ok p /\ length (pa_outs p) = 1%nat.
+    parse_sheet_gen false cfg asset 0 rows = Ok p /\ length (pa_outs p) = 1%nat /\
+    (* and the same sheet is rejected when the table types are remembered *)
+    parse_sheet_gen true cfg asset 0 rows = Err EValue.
 Proof.
   exists f11_cfg, [66; 49], f11_sheet.
-  destruct (parse_sheet f11_cfg [66; 49] 0 f11_sheet) as [p|] eqn:E; [|vm_compute in E; discriminate].
+  destruct (parse_sheet_gen false f11_cfg [66; 49] 0 f11_sheet) as [p|] eqn:E; [|vm_compute in E; discriminate].
   exists p. split; [vm_compute; reflexivity|]. split; [reflexivity|].
-  vm_compute in E. inversion E. reflexivity.
+  vm_compute in E. inversion E. split; [reflexivity|]. vm_compute. reflexivity.
 Qed.
